@@ -24,4 +24,4 @@ CONSTANTS
  MaxDown = 0
  MaxSet = 1
  MaxWork = 2
- Phased = FALSE
+ Phased = TRUE
